@@ -64,8 +64,6 @@ structure DOracles where
   out : DecView → DInp → DOut
   get : DecView → Int → Int
 
-def isSilkMode (m : Int) : Bool := m = MODE_SILK_ONLY || m = MODE_HYBRID
-
 /-- `opus_decode_native` as a footprint.
     * concealment (:311-325): the mode is `prev_redundancy ? CELT : prev_mode`; with mode 0 (nothing decoded
       since init / reset) zeros are returned and only `last_packet_duration` is stored (:733); otherwise
